@@ -26,8 +26,6 @@ func runFacts(repo, out string) int {
 			status[name] = "FAILED: " + werr.Error()
 		}
 	}
-	s, err := facts.MatrixLean(filepath.Join(repo, "matrix", "matrix.go"))
-	write("Matrix.lean", s, err)
 	for _, g := range facts.Tables {
 		s, err := g.Gen(repo)
 		write(g.File, s, err)
